@@ -7,6 +7,8 @@
 //	reset <myNet>                -> ok
 //	cfgload <cfg>                a new config.C + NewLightHouseFromConfig      -> `ok tbl=<dump>` | `fatal` | `fatal:other`
 //	cfgreload <cfg>              config.C.ReloadConfigString on that config.C  -> `<changed|unchanged|err> tbl=<dump>` | `nolh`
+//	cfgreloadx <cfg>             the same reload, the file also carrying an invalid lighthouse.remote_allow_list (a block
+//	                             LightHouse.reload handles earlier and returns on)    -> `earlier-err tbl=<dump>` | `nolh`
 //	probe <addr>                 addCalculatedRemotes(addr) + what it stored    -> `<0|1> v4=… v6=…` | `nolh`
 //
 // <cfg> is the value of lighthouse.calculated_remotes, prefix notation:
@@ -156,7 +158,9 @@ func parseItem(k *tokens) any {
 	panic("harness: bad item token " + t)
 }
 
-func cfgYAML(toks []string) string {
+var invalidSeq int
+
+func cfgYAML(toks []string, earlierInvalid bool) string {
 	k := &tokens{t: toks}
 	present, v := parseCfg(k)
 	if len(k.t) != 0 {
@@ -165,6 +169,12 @@ func cfgYAML(toks []string) string {
 	lh := map[string]any{"am_lighthouse": false}
 	if present {
 		lh["calculated_remotes"] = v
+	}
+	if earlierInvalid {
+		// a block LightHouse.reload handles BEFORE calculated_remotes is invalid — with a text that differs from every
+		// earlier one, so that HasChanged("lighthouse.remote_allow_list") holds and the block is evaluated
+		invalidSeq++
+		lh["remote_allow_list"] = map[string]any{fmt.Sprintf("garbage%d", invalidSeq): true}
 	}
 	y, err := yaml.Marshal(map[string]any{"lighthouse": lh, "listen": map[string]any{"port": 4242}})
 	if err != nil {
@@ -256,7 +266,7 @@ func (s *reloadState) exec(a []string) string {
 		s.log = &recHandler{}
 		l := slog.New(s.log)
 		c := config.NewC(l)
-		if err := c.LoadString(cfgYAML(a[1:])); err != nil {
+		if err := c.LoadString(cfgYAML(a[1:], false)); err != nil {
 			return "yamlerr " + err.Error()
 		}
 		ctx, cancel := context.WithCancel(context.Background())
@@ -270,17 +280,19 @@ func (s *reloadState) exec(a []string) string {
 		}
 		s.c, s.lh, s.cancel = c, lh, cancel
 		return "ok tbl=" + s.dump()
-	case "cfgreload":
+	case "cfgreload", "cfgreloadx":
 		if s.lh == nil {
 			return "nolh"
 		}
 		s.log.take()
-		if err := s.c.ReloadConfigString(cfgYAML(a[1:])); err != nil {
+		if err := s.c.ReloadConfigString(cfgYAML(a[1:], a[0] == "cfgreloadx")); err != nil {
 			return "yamlerr " + err.Error()
 		}
 		outcome := "unchanged"
 		for _, m := range s.log.take() {
 			switch {
+			case strings.Contains(m, "Invalid lighthouse.remote_allow_list"):
+				outcome = "earlier-err"
 			case strings.Contains(m, "lighthouse.calculated_remotes has changed"):
 				outcome = "changed"
 			case strings.Contains(m, "Invalid lighthouse.calculated_remotes"):
@@ -360,6 +372,26 @@ func reloadWitnesses(emit func(string, ...any)) {
 	emit("probe 0a801463")
 	emit("cfgreload map 2 0a801400/24 list 1 e ac100600/24 i4300 badcidr:0 list 0")
 	emit("probe 0a801463")
+	emit("cfgreload absent:0")
+	emit("probe 0a801463")
+	// a reload that fails in an earlier block of LightHouse.reload, then the corrected file with the same section
+	// (known finding stale-after-failed-reload), then a further change
+	emit("reset 64400000/10")
+	emit("cfgload map 1 0a801400/24 list 1 e ac100500/24 i4300")
+	emit("cfgreloadx map 1 0a801e00/24 list 1 e ac100600/24 i4301")
+	emit("probe 0a801463")
+	emit("cfgreload map 1 0a801e00/24 list 1 e ac100600/24 i4301")
+	emit("probe 0a801463")
+	emit("probe 0a801e63")
+	emit("cfgreload absent:0")
+	emit("probe 0a801463")
+	// … with the section unchanged by the failing reload, and with the key removed by it
+	emit("reset 64400000/10")
+	emit("cfgload map 1 0a801400/24 list 1 e ac100500/24 i4300")
+	emit("cfgreloadx map 1 0a801400/24 list 1 e ac100500/24 i4300")
+	emit("cfgreload map 1 0a801400/24 list 1 e ac100500/24 i4300")
+	emit("probe 0a801463")
+	emit("cfgreloadx absent:0")
 	emit("cfgreload absent:0")
 	emit("probe 0a801463")
 	// invalid initial load: no lighthouse
@@ -528,6 +560,13 @@ func genHistory(r *hlib.Rand, emit func(string, ...any)) {
 		}
 		if r.Chance(1, 25) {
 			emit("cfgload %s", c) // a restart
+		} else if r.Chance(1, 10) {
+			// the reload fails in an earlier block; mostly followed by the corrected file with the same section
+			emit("cfgreloadx %s", c)
+			probes()
+			if r.Chance(3, 4) {
+				emit("cfgreload %s", c)
+			}
 		} else {
 			emit("cfgreload %s", c)
 		}
